@@ -407,7 +407,7 @@ fn iter_run<M: TreeKey + ?Sized, N: Transcode + Default + ShowTarget, const D: u
         let extra = (0..polls).filter(|_| it.next().is_some()).count();
         out.push(format!("extra{extra}"));
     }
-    out.join(" ")
+    summarise(out)
 }
 
 fn iter_d<M: TreeKey + ?Sized, const D: usize>(
@@ -427,6 +427,15 @@ fn iter_d<M: TreeKey + ?Sized, const D: usize>(
         "hpath47" => iter_run::<M, Path<heapless::String<3>, '/'>, D>(root, polls, exact, limit),
         "json" => iter_run::<M, JsonPath<CapString>, D>(root, polls, exact, limit),
         _ => "bad-op".into(),
+    }
+}
+
+/// long item sequences are printed as count + first/last three items
+fn summarise(out: Vec<String>) -> String {
+    if out.len() <= 2000 {
+        out.join(" ")
+    } else {
+        format!("n={} {} ... {}", out.len(), out[..3].join(" "), out[out.len() - 4..].join(" "))
     }
 }
 
